@@ -352,6 +352,18 @@ theorem caseLines_two_no_nl : ∀ (panel : List (List Str)) (vals : List Str),
         (hl v (by simp)).noNl⟩
     · exact caseLines_two_no_nl rs vs (fun s hs => hp s (by simp [hs])) (fun x hx => hl x (by simp [hx])) l h
 
+theorem written_length_ne_zero (nl : Str) (o : WOpts) (K : List Str) : (headerLines nl o ++ K).length ≠ 0 := by
+  intro h
+  have h1 : headerLines nl o ++ K = [] := List.eq_nil_of_length_eq_zero h
+  have h2 : headerLines nl o = [] := (List.append_eq_nil_iff.mp h1).1
+  rw [headerLines_eq] at h2
+  have h3 := (List.append_eq_nil_iff.mp h2).2
+  exact absurd (List.append_eq_nil_iff.mp h3).1 (List.cons_ne_nil _ _)
+
+/-- a case line met before the class-label tag was seen is an error -/
+theorem dataLine_noCL (st : St) (l : Str) (h : st.hasCL = false) : dataLine st l = .error .parse := by
+  simp [dataLine, h]
+
 /-- parsing the text made of the given lines = running the loop over them -/
 theorem parseTs_unlines_ok (ls : List Str) (st : St) (h : ∀ l ∈ ls, '\n' ∉ l)
     (hrun : run {} (ls.map normLine) = .ok st) : parseTs (unlines ls) = finish ls.length st := by
